@@ -152,6 +152,9 @@ pub struct NetInner {
     pub tampered_delivered: u64,
     next_client_port: u16,
     pub last_fault_at_ms: u64,
+    /// per endpoint (0 client, 1 server): last datagram delivered to it / last send or delivery
+    pub last_delivered_ms: [u64; 2],
+    pub last_activity_ms: [u64; 2],
 }
 
 pub struct SimNet {
@@ -190,6 +193,8 @@ impl SimNet {
                 tampered_delivered: 0,
                 next_client_port: 50000,
                 last_fault_at_ms: 0,
+                last_delivered_ms: [0; 2],
+                last_activity_ms: [0; 2],
             }),
         })
     }
@@ -239,6 +244,7 @@ impl SimNet {
         let dir = if src == self.server_addr { S2C } else { C2S };
         let ord = inner.ordinals[dir];
         inner.ordinals[dir] += 1;
+        inner.last_activity_ms[dir] = now_ms;
         // C15 ledger: counted at the moment the endpoint hands bytes to the network
         let led = inner.ledger.entry((src, dst)).or_default();
         led.sent += data.len() as u64;
@@ -384,6 +390,9 @@ impl SimNet {
             let dir = if f.dst == self.server_addr { C2S } else { S2C };
             if let Some(ep) = inner.endpoints.get_mut(&f.dst) {
                 inner.delivered[dir] += 1;
+                let now_ms = now.saturating_duration_since(self.start).as_millis() as u64;
+                inner.last_delivered_ms[1 - dir] = now_ms;
+                inner.last_activity_ms[1 - dir] = now_ms;
                 inner.ledger.entry((f.dst, f.src)).or_default().rcvd += f.data.len() as u64;
                 ep.queue.push_back(f);
                 if let Some(w) = ep.waker.take() {
